@@ -145,6 +145,7 @@ pub fn helper_main(args: &[OsString]) -> i32 {
         "failafterread" => TrOp::Cat,
         "noout" => TrOp::Cat,
         "needkey" => TrOp::Cat,
+        "scribble" => TrOp::Cat,
         s if s.starts_with("head:") => TrOp::Head(s[5..].parse().unwrap_or(0)),
         _ => return 2,
     };
@@ -156,6 +157,19 @@ pub fn helper_main(args: &[OsString]) -> i32 {
     };
     if r.is_err() {
         return 4;
+    }
+    if opname == "scribble" {
+        // a transform that rewrites the file it was given (legitimate: without --no-copy that file is a
+        // private copy made by fclones)
+        if let Some(p) = &src {
+            let mut d2 = data.clone();
+            for b in d2.iter_mut().take(64) {
+                *b = b.wrapping_add(1);
+            }
+            d2.extend_from_slice(b"scribbled");
+            let _ = std::fs::write(p, &d2);
+        }
+        return 0;
     }
     if opname == "failafterread" {
         return 5;
